@@ -140,7 +140,7 @@ def render(c):
     conc = f["deps"]["kind"] == "concrete"
     recv_ty = "crate::Conc" if conc else "::entrait::Impl<crate::App>"
     recv_mk = 'crate::Conc { name: "c" }' if conc else "::entrait::Impl::new(crate::App)"
-    nd = ", no_deps" if f["deps"]["kind"] == "nodeps" else ""
+    nd = (", no_deps" if f["deps"]["kind"] == "nodeps" else "") + c.get("xopt", "")
     out = ["#[allow(unused_imports)] use crate::HasName as _;\n#[allow(unused_imports)] use crate::Conc;\n"]
     if mode == "fn":
         out.append(f"#[::entrait::entrait(pub T{nd})]\n{fn_text(f, 'f')}\n")
